@@ -557,6 +557,7 @@ pub fn supervise(
             .env("RAYON_NUM_THREADS", "1")
             .env("TZ", "UTC")
             .env("TMPDIR", tmp_dir())
+            .env("VERIF_RUN_DIR", &wd)
             .stdin(std::process::Stdio::null())
             .stdout(std::process::Stdio::null())
             .stderr(errf)
